@@ -199,6 +199,18 @@ type chainEnv struct {
 	ccmc    []byte
 	sealID  *big.Int // chain id element of the seal hash (nil when the router does not use one)
 	epoch   uint64   // msc: checkpoint interval; polygon-bor: sprint length
+	hook    txHook   // optional observer called with every transaction before it is executed (C16 part A)
+}
+
+// txHook observes a transaction that is about to be executed on e's world.
+type txHook func(e *chainEnv, tx *ptypes.Transaction)
+
+// exec runs one transaction on the world, after showing it to the hook.
+func (e *chainEnv) exec(tx *ptypes.Transaction) world.Result {
+	if e.hook != nil {
+		e.hook(e, tx)
+	}
+	return e.w.Exec(tx)
 }
 
 func le64(v uint64) []byte { b := make([]byte, 8); binary.LittleEndian.PutUint64(b, v); return b }
@@ -279,7 +291,7 @@ func (e *chainEnv) genesisTx(genesis []byte, signers []common.Address) *ptypes.T
 }
 
 func (e *chainEnv) syncGenesis(genesis []byte, signers []common.Address) world.Result {
-	return e.w.Exec(e.genesisTx(genesis, signers))
+	return e.exec(e.genesisTx(genesis, signers))
 }
 
 func (e *chainEnv) headersTx(hs [][]byte) *ptypes.Transaction {
@@ -291,7 +303,7 @@ func (e *chainEnv) headersTx(hs [][]byte) *ptypes.Transaction {
 }
 
 func (e *chainEnv) syncHeaders(hs [][]byte) world.Result {
-	return e.w.Exec(e.headersTx(hs))
+	return e.exec(e.headersTx(hs))
 }
 
 // --- black-box readers of the light client's storage
